@@ -83,6 +83,11 @@ type world struct {
 
 	candidate int // index of the registered candidate key (ck.Candidates)
 	nonce     uint32
+
+	goldenOnce sync.Once
+	goldenMap  map[string][][]any
+	sigOnce    sync.Once
+	sigBytes   []byte
 }
 
 var (
@@ -200,6 +205,18 @@ func buildWorld() (*world, error) {
 		pcs = append(pcs, buildHopProbe(fmt.Sprintf("P%d", i)))
 	}
 	if w.ps, err = w.deployAll(deployer, pcs); err != nil {
+		return nil, err
+	}
+	// Background for the native methods: a blocked account, a notary deposit that is expired by the end of the setup,
+	// a pending oracle request (id 0) made by P1, a whitelisted method.
+	if err := w.block([]ck.Action{
+		{Kind: "policy", From: 2, S: "blockAccount", A: 5, Nonce: w.next()},
+		{Kind: "notary_deposit", From: 4, N: 10_0000_0000, A: 2, B: -1, Nonce: w.next(), S: "deposit"},
+		{Kind: "raw", From: 0, Nonce: w.next(), S: "oracle request", V: appCall(w.ps[0].Hash, "call", callflag.All,
+			nativehashes.OracleContract.BytesBE(), "request", int64(15), []any{"https://x.example/q", nil, "oracleCb", nil, int64(1000_0000)})},
+		{Kind: "raw", From: ck.PCommittee, Nonce: w.next(), S: "whitelist", V: appCall(nativehashes.PolicyContract, "setWhitelistFeeContract", callflag.All,
+			w.b.Deployed[1].Hash.BytesBE(), "variant", int64(0), int64(1000))},
+	}); err != nil {
 		return nil, err
 	}
 	if err := w.deployPermissionFamily(); err != nil {
@@ -352,7 +369,6 @@ func (w *world) run(ic *interop.Context, own ...util.Uint160) *outcome {
 			order = append(order, h)
 		}
 	})
-	ic.VM.SetGasLimit(50_0000_0000)
 	err := ic.VM.Run()
 	o := &outcome{Halt: err == nil && ic.VM.State() == vmstate.Halt, Invoc: map[string]int{}, Gas: ic.VM.GasConsumed()}
 	if err != nil {
